@@ -238,9 +238,48 @@ func condsAt(b *ssa.BasicBlock) []Cond {
 		rf := reachesAvoiding(f, b, d)
 		if rt && !rf {
 			out = append(out, Cond{ifi.Cond, true})
+			out = append(out, shortCircuitFacts(ifi.Cond, true, 0)...)
 		} else if rf && !rt {
 			out = append(out, Cond{ifi.Cond, false})
+			out = append(out, shortCircuitFacts(ifi.Cond, false, 0)...)
 		}
+	}
+	return out
+}
+
+// shortCircuitFacts: a boolean VALUE built by && / || (a tagless switch case `case a != nil && *a:`, `ok := x && y`) is a
+// phi whose edges are the constant of the short cut and the last operand. When the phi has the value that only ONE edge
+// can deliver, control came along that edge: the facts of that edge hold, and the operand it carries has that value.
+var scDepth int // recursion guard of shortCircuitFacts through edgeFacts/condsAt (loop-carried boolean phis)
+
+func shortCircuitFacts(v ssa.Value, val bool, depth int) []Cond {
+	ph, ok := v.(*ssa.Phi)
+	if !ok || depth > 3 {
+		return nil
+	}
+	only := -1
+	for i, ed := range ph.Edges {
+		if c, isC := constBool(ed); isC && c != val {
+			continue // this edge delivers the other value
+		}
+		if only >= 0 {
+			return nil
+		}
+		only = i
+	}
+	if only < 0 {
+		return nil
+	}
+	pred := ph.Block().Preds[only]
+	if scDepth > 2 {
+		return nil
+	}
+	scDepth++
+	out := edgeFacts(pred, ph.Block())
+	scDepth--
+	if _, isC := constBool(ph.Edges[only]); !isC {
+		out = append(out, Cond{ph.Edges[only], val})
+		out = append(out, shortCircuitFacts(ph.Edges[only], val, depth+1)...)
 	}
 	return out
 }
